@@ -6,6 +6,7 @@ import (
 	"reflect"
 	"sort"
 	"strings"
+	"time"
 
 	"github.com/goghcrow/yae"
 	"github.com/goghcrow/yae/conv"
@@ -608,6 +609,12 @@ func envcheckCase(r *rand.Rand, a, b envForm, tags []string) Case {
 			oracle("envcheck-wrong-result", fmt.Sprintf("%d traced calls for %d terms", ntr, len(terms)))
 		case res == nil || want == nil:
 			oracle("envcheck-wrong-result", "nil result")
+		case hostKeysCoincide(reflect.ValueOf(b.x), 0):
+			// a host map two of whose keys are the same yae key (numbers as doubles, equal
+			// instants): which entry survives depends on Go's map iteration order, so two
+			// conversions of the same host value need not agree; outside what the property
+			// says about "the environment's contents" (DESIGN §0.3, not a finding)
+			c.Tags = append(c.Tags, "host-keys-coincide")
 		default:
 			got := safely(func() string { return encVal(res) })
 			if exp := safely(func() string { return encVal(want) }); got != exp {
@@ -723,4 +730,54 @@ func rawEnvCase(r *rand.Rand) Case {
 	a := envForm{tenv, "*types.Env{" + strings.Join(descA, ", ") + "}"}
 	b := envForm{venv, "*val.Env{" + strings.Join(descB, ", ") + "}"}
 	return envcheckCase(r, a, b, []string{"raw-env", "mutation:" + mut})
+}
+
+// hostKeysCoincide: does the host value contain a Go map two of whose keys convert to the same
+// yae key (e.g. int64 keys 2^53 and 2^53+1, which are one number as doubles)?
+func hostKeysCoincide(v reflect.Value, depth int) bool {
+	if depth > 12 || !v.IsValid() {
+		return false
+	}
+	switch v.Kind() {
+	case reflect.Pointer, reflect.Interface:
+		if v.IsNil() {
+			return false
+		}
+		return hostKeysCoincide(v.Elem(), depth+1)
+	case reflect.Struct:
+		if _, ok := v.Interface().(time.Time); ok {
+			return false
+		}
+		for i := 0; i < v.NumField(); i++ {
+			if v.Type().Field(i).IsExported() && hostKeysCoincide(v.Field(i), depth+1) {
+				return true
+			}
+		}
+	case reflect.Slice, reflect.Array:
+		for i := 0; i < v.Len(); i++ {
+			if hostKeysCoincide(v.Index(i), depth+1) {
+				return true
+			}
+		}
+	case reflect.Map:
+		seen := map[string]bool{}
+		it := v.MapRange()
+		for it.Next() {
+			kk := safely(func() string {
+				kv, err := conv.ValOf(it.Key().Interface())
+				if err != nil {
+					return fmt.Sprintf("?%v", it.Key().Interface())
+				}
+				return kv.Type.String() + "#" + kv.Key().String()
+			})
+			if seen[kk] {
+				return true
+			}
+			seen[kk] = true
+			if hostKeysCoincide(it.Value(), depth+1) {
+				return true
+			}
+		}
+	}
+	return false
 }
